@@ -78,7 +78,7 @@ def _intify_keys(d):
     assert isinstance(d, dict)
     out = {}
     for k, v in d.items():
-        if isinstance(k, str) and k.isdigit():
+        if isinstance(k, str) and (k[1:] if k.startswith('-') else k).isdigit():
             k = int(k)
         out[k] = v
     return out
